@@ -2850,7 +2850,7 @@ func ruleC16_7(c *Ctx, r *Rep) {
 			}
 		}
 	}
-	r.Floor("C16.7", n, 6)
+	r.Floor("C16.7", n, 2)
 }
 
 // C16.8: what a deferred function of the pull dereferences is bound on every exit: the subscription id pointer is
@@ -2990,30 +2990,41 @@ func ruleC06_7(c *Ctx, r *Rep) {
 				continue
 			}
 			n++
-			fromReq := sources(m.Arg)["field:MaxDeliveryAttempts"]
-			_, isConst := resolve(m.Arg).(*ssa.Const)
-			nonZero, zero := false, false
-			for _, cd := range m.Conds {
-				nc := normCond(cd.V, cd.Pol)
-				bo, isB := nc.V.(*ssa.BinOp)
-				if !isB || !sources(bo.X)["field:MaxDeliveryAttempts"] {
-					continue
+			// each value the argument can take, with the conditions that select it (two setter calls under if/else, or
+			// one call fed by `v := req; if v == 0 { v = default }`)
+			ok := true
+			alts := valueAlternatives(m.Arg)
+			if len(alts) == 0 {
+				ok = false
+			}
+			for _, alt := range alts {
+				fromReq := sources(alt.v)["field:MaxDeliveryAttempts"]
+				_, isConst := resolve(alt.v).(*ssa.Const)
+				nonZero, zero := false, false
+				for _, cd := range append(append([]Cond{}, m.Conds...), alt.conds...) {
+					nc := normCond(cd.V, cd.Pol)
+					bo, isB := nc.V.(*ssa.BinOp)
+					if !isB || !sources(bo.X)["field:MaxDeliveryAttempts"] {
+						continue
+					}
+					if z, isZ := constInt(bo.Y); !isZ || z != 0 {
+						continue
+					}
+					switch {
+					case (bo.Op == token.NEQ || bo.Op == token.GTR) && nc.Pol, bo.Op == token.EQL && !nc.Pol:
+						nonZero = true
+					case bo.Op == token.EQL && nc.Pol, (bo.Op == token.NEQ || bo.Op == token.GTR) && !nc.Pol:
+						zero = true
+					}
 				}
-				if z, isZ := constInt(bo.Y); !isZ || z != 0 {
-					continue
-				}
-				switch {
-				case (bo.Op == token.NEQ || bo.Op == token.GTR) && nc.Pol, bo.Op == token.EQL && !nc.Pol:
-					nonZero = true
-				case bo.Op == token.EQL && nc.Pol, (bo.Op == token.NEQ || bo.Op == token.GTR) && !nc.Pol:
-					zero = true
+				if !(fromReq && !isConst && nonZero && !zero || isConst && zero && !nonZero) {
+					ok = false
 				}
 			}
-			ok := fromReq && nonZero && !zero || isConst && zero && !nonZero
 			r.Check("C06.7", fmt.Sprintf("C06.7:attempt-limit-from-request-or-default#%d:%s", n, keys[s]), m.Pos, ok, "", "the attempt limit stored by an update is not `the request's value if non-zero, else the default`: an explicit N is replaced by the default and an unspecified one stored as 0 (dead-lettering off)")
 		}
 	}
-	r.Floor("C06.7", n, 2)
+	r.Floor("C06.7", n, 1)
 }
 
 // ---------------------------------------------------------------------------
